@@ -14,7 +14,9 @@
 (*               (read from the simulated server AFTER the operation),     *)
 (*        snap = [set, v]: file contents / keyspace after a Reopen]        *)
 (*  type "badfile": a JSONStore opened over an unreadable / non-JSON /     *)
-(*     truncated file: out = [kind: opened|exc, cls, n]                    *)
+(*     truncated file (cls = class of the variant):                        *)
+(*     out = [kind: opened|exc, cls, n (keys seen, -1: len failed),        *)
+(*            usable (a write is read back)]                               *)
 (*  type "engine-ttl": execution records written through the engine:       *)
 (*     want, got (ttl of every record key), n                              *)
 (*                                                                         *)
@@ -94,8 +96,8 @@ JudgeOp(P, s0, t0, o, lst, pnd) ==
 Drifts(P, t, o) == IF HasCache(P) /\ \E c \in ClientsOf(P) : o.pend[c] # t.inflight[c] THEN 1 ELSE 0
 
 JudgeBadFile(o) ==
-    (* UnreadableFileStartsEmpty: opened, and as empty as Init *)
-    IF o.out.kind = "opened" /\ o.out.n = Cardinality(DOMAIN Init(o.P).kv) THEN <<>>
+    (* UnreadableFileStartsEmpty: opened, as empty as Init, and a working mapping *)
+    IF o.out.kind = "opened" /\ o.out.n = Cardinality(DOMAIN Init(o.P).kv) /\ o.out.usable THEN <<>>
     ELSE <<[id |-> o.id, step |-> 0, clause |-> "UnreadableFileStartsEmpty", op |-> o.variant]>>
 
 JudgeEngineTtl(o) ==
@@ -105,8 +107,12 @@ JudgeEngineTtl(o) ==
 (* ---- known findings (signatures over the case at its root cause) ---------------------- *)
 Known == JsonDeserialize(IOEnv.KNOWN_FINDINGS)
 ActiveK == {Known.findings[jj].id : jj \in {jj \in 1..Len(Known.findings) : Known.findings[jj].status = "known"}}
-(* none for C20: no genuine defect of store.py was met on the explored space *)
-KF(f) == ""
+(* KC20-1: a store file holding valid JSON that is not an object is kept as the table: the *)
+(* store opens without error and is then not a usable mapping                             *)
+KC20_1(o, f) == /\ o.type = "badfile" /\ o.cls = "json-nonobject"
+                /\ f.clause = "UnreadableFileStartsEmpty"
+                /\ o.out.kind = "opened" /\ ~o.out.usable
+KF(o, f) == IF "KC20-1" \in ActiveK /\ KC20_1(o, f) THEN "KC20-1" ELSE ""
 
 (* One TLC step per operation of a path (and one per case of the other types): the model     *)
 (* state s, the client's previous cached reads `last` and the invalidations in flight `pend`   *)
@@ -114,7 +120,7 @@ KF(f) == ""
 DefaultP == [kind |-> "mem", shape |-> "dict", nclients |-> 1, cap |-> 1, maxlen |-> 1, maxinfl |-> 1,
              ttl |-> 0, writer2 |-> FALSE, lite |-> FALSE, ttl1 |-> FALSE]
 PathP(n) == IF n <= N /\ Obs[n].type = "path" THEN Obs[n].P ELSE DefaultP
-Mk(f) == [id |-> f.id, clause |-> f.clause, kf |-> KF(f), step |-> f.step, op |-> f.op]
+Mk(o, f) == [id |-> f.id, clause |-> f.clause, kf |-> KF(o, f), step |-> f.step, op |-> f.op]
 
 Init0 == /\ i = 1 /\ oi = 1 /\ viol = <<>> /\ dr = FALSE
          /\ s = Init(PathP(1)) /\ last = InitLast(PathP(1)) /\ pend = InitPend(PathP(1))
@@ -126,7 +132,7 @@ Next ==
        IF o.type # "path"
        THEN /\ NextCase
             /\ LET r == IF o.type = "badfile" THEN JudgeBadFile(o) ELSE JudgeEngineTtl(o)
-               IN viol' = viol \o [n \in 1..Len(r) |-> Mk(r[n])]
+               IN viol' = viol \o [n \in 1..Len(r) |-> Mk(o, r[n])]
        ELSE IF oi > Len(o.ops) THEN NextCase /\ viol' = viol
        ELSE LET P == o.P
                 op == o.ops[oi]
@@ -134,8 +140,8 @@ Next ==
                 vs == JudgeOp(P, s, t, op, last, pend)
                 bad == SelectSeq(vs, LAMBDA x : x # "ok")
                 d == Drifts(P, t, op) = 1 /\ ~dr
-                new == [n \in 1..Len(bad) |-> Mk([id |-> o.id, step |-> oi, clause |-> bad[n], op |-> op.op])]
-                       \o (IF d THEN <<Mk([id |-> o.id, step |-> oi, clause |-> "drift", op |-> op.op])>> ELSE <<>>)
+                new == [n \in 1..Len(bad) |-> Mk(o, [id |-> o.id, step |-> oi, clause |-> bad[n], op |-> op.op])]
+                       \o (IF d THEN <<Mk(o, [id |-> o.id, step |-> oi, clause |-> "drift", op |-> op.op])>> ELSE <<>>)
             IN /\ i' = i /\ oi' = oi + 1 /\ s' = t /\ pend' = op.pend /\ dr' = (dr \/ d)
                /\ viol' = viol \o new
                /\ last' = IF op.op = "CachedGet" /\ HasCache(P) /\ op.out.kind = "value"
